@@ -31,9 +31,9 @@ def Backend.elemPtrDefault : Backend → Bool
   | .atlas => true | _ => false
 
 def Backend.mdType : Backend → Text
-  | .atlas => tx "add_atlas_event_collection_info"
-  | .cmsAod => tx "add_cms_aod_event_collection_info"
-  | .cmsMiniaod => tx "add_cms_miniaod_event_collection_info"
+  | .atlas => t!"add_atlas_event_collection_info"
+  | .cmsAod => t!"add_cms_aod_event_collection_info"
+  | .cmsMiniaod => t!"add_cms_miniaod_event_collection_info"
 
 def Backend.ofMdType (t : Text) : Option Backend :=
   if t = Backend.mdType .atlas then some .atlas
@@ -43,8 +43,8 @@ def Backend.ofMdType (t : Text) : Option Backend :=
 
 /-- the built-in table of the backend as the property sees it (from the generated rows) -/
 def Row.toDecl (b : Backend) (r : Row) : Decl :=
-  { name := r.name.toList, includes := r.includes.map String.toList, container := r.container.toList,
-    element := r.element.map String.toList, elemPtr := b.elemPtrDefault, libraries := r.libraries.map String.toList }
+  { name := r.name, includes := r.includes, container := r.container,
+    element := r.element, elemPtr := r.element.isSome && b.elemPtrDefault, libraries := r.libraries }
 
 def builtinDecls (b : Backend) : List Decl := b.rows.map (Row.toDecl b)
 
@@ -53,13 +53,13 @@ def builtinDecls (b : Backend) : List Decl := b.rows.map (Row.toDecl b)
 /-- keys the backend's declaration accepts (generated from the `if k not in [...]` list) -/
 def Backend.whitelist (b : Backend) : List Text :=
   match findBranch b.mdType with
-  | some br => br.whitelist.map String.toList
+  | some br => br.whitelist
   | none => []
 
-def requiredKeys : List String := ["name", "include_files", "container_type", "contains_collection"]
+def requiredKeys : List Text := [t!"name", t!"include_files", t!"container_type", t!"contains_collection"]
 
 def Md.flag (md : Md) : Bool :=
-  match md.get? (tx "contains_collection") with
+  match md.get? (t!"contains_collection") with
   | some v => v.truthy
   | none => false
 
@@ -72,13 +72,13 @@ def isBool : Option MdVal → Bool
 
 /-- every value present has the documented type -/
 def Md.WellTyped (md : Md) : Prop :=
-  (md.has "name" → isStr (md.get? (tx "name")) = true) ∧
-  (md.has "include_files" → isStrs (md.get? (tx "include_files")) = true) ∧
-  (md.has "container_type" → isStr (md.get? (tx "container_type")) = true) ∧
-  (md.has "element_type" → isStr (md.get? (tx "element_type")) = true) ∧
-  (md.has "contains_collection" → isBool (md.get? (tx "contains_collection")) = true) ∧
-  (md.has "link_libraries" → isStrs (md.get? (tx "link_libraries")) = true) ∧
-  (md.has "element_pointer" → isBool (md.get? (tx "element_pointer")) = true)
+  (md.has t!"name" → isStr (md.get? (t!"name")) = true) ∧
+  (md.has t!"include_files" → isStrs (md.get? (t!"include_files")) = true) ∧
+  (md.has t!"container_type" → isStr (md.get? (t!"container_type")) = true) ∧
+  (md.has t!"element_type" → isStr (md.get? (t!"element_type")) = true) ∧
+  (md.has t!"contains_collection" → isBool (md.get? (t!"contains_collection")) = true) ∧
+  (md.has t!"link_libraries" → isStrs (md.get? (t!"link_libraries")) = true) ∧
+  (md.has t!"element_pointer" → isBool (md.get? (t!"element_pointer")) = true)
 
 instance (md : Md) : Decidable md.WellTyped := by unfold Md.WellTyped; exact inferInstance
 
@@ -88,28 +88,28 @@ def ValidMd (b : Backend) (md : Md) : Prop :=
   md.mdType = b.mdType ∧
   (∀ k ∈ md.keys, k ∈ b.whitelist) ∧
   (∀ k ∈ requiredKeys, md.has k = true) ∧
-  (md.flag = true ↔ md.has "element_type" = true)
+  (md.flag = true ↔ md.has t!"element_type" = true)
 
 instance (b : Backend) (md : Md) : Decidable (ValidMd b md) := by unfold ValidMd; exact inferInstance
 
-def getStr (md : Md) (k : String) : Text :=
-  match md.get? k.toList with
+def getStr (md : Md) (k : Text) : Text :=
+  match md.get? k with
   | some (.str s) => s
   | _ => []
 
-def getStrs (md : Md) (k : String) : List Text :=
-  match md.get? k.toList with
+def getStrs (md : Md) (k : Text) : List Text :=
+  match md.get? k with
   | some (.strs l) => l
   | _ => []
 
 /-- the collection a (valid) declaration declares -/
 def intended (b : Backend) (md : Md) : Decl :=
-  { name := getStr md "name", includes := getStrs md "include_files", container := getStr md "container_type",
-    element := if md.flag then some (getStr md "element_type") else none,
-    elemPtr := match md.get? (tx "element_pointer") with
+  { name := getStr md t!"name", includes := getStrs md t!"include_files", container := getStr md t!"container_type",
+    element := if md.flag then some (getStr md t!"element_type") else none,
+    elemPtr := md.flag && (match md.get? (t!"element_pointer") with
       | some v => v.truthy
-      | none => b.elemPtrDefault,
-    libraries := getStrs md "link_libraries" }
+      | none => b.elemPtrDefault),
+    libraries := getStrs md t!"link_libraries" }
 
 /-- dict semantics: the last declaration of a name wins, and any declaration beats a built-in -/
 def lookupDecl : List Decl → Text → Option Decl
@@ -150,25 +150,25 @@ instance (b : Backend) (mds : List Md) (uses : List Use) : Decidable (Acceptable
 /-- the handle the container is fetched into -/
 def expectedTy (b : Backend) (d : Decl) : Text :=
   match b, d.element with
-  | .atlas, some _ => tx "const " ++ d.container ++ tx "*"
-  | .atlas, none => tx "const " ++ d.container ++ tx " *"
-  | .cmsAod, _ => tx "edm::Handle<" ++ d.container ++ tx ">"
-  | .cmsMiniaod, _ => tx "Handle<" ++ d.container ++ tx ">"
+  | .atlas, some _ => t!"const " ++ d.container ++ t!"*"
+  | .atlas, none => t!"const " ++ d.container ++ t!" *"
+  | .cmsAod, _ => t!"edm::Handle<" ++ d.container ++ t!">"
+  | .cmsMiniaod, _ => t!"Handle<" ++ d.container ++ t!">"
 
 /-- `decl T x; { T result(=0); IDIOM_b(T, bank); x = result; }` — the statements of the block:
 ATLAS status-checked store retrieval, CMS AOD by label, CMS miniAOD by token. -/
 def expectedLines (b : Backend) (ty lit tok x : Text) : List Text :=
   match b with
-  | .atlas => [ty ++ tx " result = 0;", tx "ANA_CHECK (evtStore()->retrieve(result, " ++ lit ++ tx "));", x ++ tx " = result;"]
-  | .cmsAod => [ty ++ tx " result;", tx "iEvent.getByLabel(" ++ lit ++ tx ", result);", x ++ tx " = result;"]
-  | .cmsMiniaod => [ty ++ tx " result;", tx "iEvent.getByToken(" ++ tok ++ tx ", result);", x ++ tx " = result;"]
+  | .atlas => [ty ++ t!" result = 0;", t!"ANA_CHECK (evtStore()->retrieve(result, " ++ lit ++ t!"));", x ++ t!" = result;"]
+  | .cmsAod => [ty ++ t!" result;", t!"iEvent.getByLabel(" ++ lit ++ t!", result);", x ++ t!" = result;"]
+  | .cmsMiniaod => [ty ++ t!" result;", t!"iEvent.getByToken(" ++ tok ++ t!", result);", x ++ t!" = result;"]
 
 def expectedDecl (ty x : Text) : Text := ty ++ ' ' :: x ++ [';']
 
-def expectedTokenDecl (d : Decl) (tok : Text) : Text := tx "edm::EDGetTokenT<" ++ d.container ++ tx "> " ++ tok ++ tx ";"
+def expectedTokenDecl (d : Decl) (tok : Text) : Text := t!"edm::EDGetTokenT<" ++ d.container ++ t!"> " ++ tok ++ t!";"
 
 def expectedTokenInit (d : Decl) (lit tok : Text) : Text :=
-  tok ++ tx " = consumes<" ++ d.container ++ tx ">(edm::InputTag(" ++ lit ++ tx "));"
+  tok ++ t!" = consumes<" ++ d.container ++ t!">(edm::InputTag(" ++ lit ++ t!"));"
 
 /-! ## observations -/
 
@@ -202,8 +202,8 @@ def FragSpec (b : Backend) (d : Decl) (bank : Text) (f : FragObs) : Prop :=
   f.lines = expectedLines b (expectedTy b d) (cppLit bank) f.tok f.var ∧
   f.decls = [expectedDecl (expectedTy b d) f.var] ∧
   (match d.element with
-   | some _ => (∀ e ∈ f.iters, e = '*' :: f.var) ∧ (∀ o ∈ f.elemOps, o = if d.elemPtr then tx "->" else tx ".") ∧ f.selfOps = []
-   | none => f.iters = [] ∧ f.elemOps = [] ∧ ∀ o ∈ f.selfOps, o = tx "->")
+   | some _ => (∀ e ∈ f.iters, e = '*' :: f.var) ∧ (∀ o ∈ f.elemOps, o = if d.elemPtr then t!"->" else t!".") ∧ f.selfOps = []
+   | none => f.iters = [] ∧ f.elemOps = [] ∧ ∀ o ∈ f.selfOps, o = t!"->")
 
 instance (b : Backend) (d : Decl) (bank : Text) (f : FragObs) : Decidable (FragSpec b d bank f) := by
   unfold FragSpec; cases d.element <;> exact inferInstance
@@ -298,7 +298,10 @@ def TypeClean (d : Decl) : Prop := hasWord paramName d.container = false
 
 /-- defect exclusion (known finding "element_pointer"): the declared element kind is the
 backend's default one (the CMS branches accept `element_pointer` and ignore it) -/
-def KindDefault (b : Backend) (md : Md) : Prop := (intended b md).elemPtr = b.elemPtrDefault
+def KindDefault (b : Backend) (md : Md) : Prop :=
+  match md.get? (t!"element_pointer") with
+  | some v => v.truthy = b.elemPtrDefault
+  | none => True
 
 /-- defect exclusion (known finding "cms singleton"): the CMS branches build a collection
 whatever `contains_collection` says -/
@@ -313,10 +316,11 @@ def endsInDigit (t : Text) : Bool :=
 names that do not end in a digit -/
 def NameClean (n : Text) : Prop := endsInDigit n = false
 
-def keysDistinct (md : Md) : Prop := (md.fields.map (·.1)).Nodup ∧ tx "metadata_type" ∉ md.fields.map (·.1)
+def keysDistinct (md : Md) : Prop := (md.fields.map (·.1)).Nodup ∧ t!"metadata_type" ∉ md.fields.map (·.1)
 
 instance (d : Decl) : Decidable (TypeClean d) := by unfold TypeClean; exact inferInstance
-instance (b : Backend) (md : Md) : Decidable (KindDefault b md) := by unfold KindDefault; exact inferInstance
+instance (b : Backend) (md : Md) : Decidable (KindDefault b md) := by
+  unfold KindDefault; cases md.get? (t!"element_pointer") <;> exact inferInstance
 instance (b : Backend) (md : Md) : Decidable (CmsIsCollection b md) := by unfold CmsIsCollection; exact inferInstance
 instance (n : Text) : Decidable (NameClean n) := by unfold NameClean; exact inferInstance
 instance (md : Md) : Decidable (keysDistinct md) := by unfold keysDistinct; exact inferInstance
@@ -348,7 +352,7 @@ def firstSegment (h : Text) : Text := h.takeWhile (· != '/')
 /-- file name of a header without directory and without `.h` -/
 def headerStem (h : Text) : Text :=
   let base := (h.reverse.takeWhile (· != '/')).reverse
-  match stripSuffix? (tx ".h") base with
+  match stripSuffix? (t!".h") base with
   | some s => s
   | none => base
 
@@ -356,38 +360,38 @@ def headerStem (h : Text) : Text :=
 `const T*` holding pointers; the container's own header `<lib>/<class>.h` is among the headers;
 every header lives in a package the row links against. -/
 def AtlasRowOk (r : Row) : Prop :=
-  r.backend = "atlas" ∧
-  (let (ns, cls) := splitNs r.container.toList
-   ns = tx "xAOD::" ∧
+  r.backend = t!"atlas" ∧
+  (let (ns, cls) := splitNs r.container
+   ns = t!"xAOD::" ∧
    (match r.element with
-    | some e => stripSuffix? (tx "Container") cls = some (splitNs e.toList).2 ∧ (splitNs e.toList).1 = ns ∧
-        r.depthType = 1 ∧ r.depthElem = 1 ∧ r.cls = "atlas_xaod_event_collection_collection"
-    | none => r.depthType = 1 ∧ r.cls = "atlas_xaod_event_collection_container") ∧
-   (∃ h ∈ r.includes, headerStem h.toList = cls ∧ firstSegment h.toList ∈ r.libraries.map String.toList)) ∧
-  (∀ h ∈ r.includes, firstSegment h.toList ∈ r.libraries.map String.toList) ∧
-  (∀ l ∈ r.libraries, ∃ h ∈ r.includes, firstSegment h.toList = l.toList) ∧
+    | some e => stripSuffix? (t!"Container") cls = some (splitNs e).2 ∧ (splitNs e).1 = ns ∧
+        r.depthType = 1 ∧ r.depthElem = 1 ∧ r.cls = t!"atlas_xaod_event_collection_collection"
+    | none => r.depthType = 1 ∧ r.cls = t!"atlas_xaod_event_collection_container") ∧
+   (∃ h ∈ r.includes, headerStem h = cls ∧ firstSegment h ∈ r.libraries)) ∧
+  (∀ h ∈ r.includes, firstSegment h ∈ r.libraries) ∧
+  (∀ l ∈ r.libraries, ∃ h ∈ r.includes, firstSegment h = l) ∧
   r.includes ≠ [] ∧ r.libraries ≠ []
 
 /-- CMS row: `<ns>::<X>Collection` of `<ns>::<X>`, fetched through a handle holding values; the
 element's own header `DataFormats/<pkg>/interface/<X>.h` is among the headers; no link library. -/
-def CmsRowOk (backend : String) (cls : String) (r : Row) : Prop :=
+def CmsRowOk (backend : Text) (cls : Text) (r : Row) : Prop :=
   r.backend = backend ∧ r.cls = cls ∧ r.libraries = [] ∧ r.depthType = 1 ∧ r.depthElem = 0 ∧
   (match r.element with
    | some e =>
-     let (ns, c) := splitNs r.container.toList
-     let (ens, ec) := splitNs e.toList
-     ens = ns ∧ stripSuffix? (tx "Collection") c = some ec ∧
-     ∃ h ∈ r.includes, headerStem h.toList = ec
+     let (ns, c) := splitNs r.container
+     let (ens, ec) := splitNs e
+     ens = ns ∧ stripSuffix? (t!"Collection") c = some ec ∧
+     ∃ h ∈ r.includes, headerStem h = ec
    | none => False) ∧
-  (∀ h ∈ r.includes, firstSegment h.toList = tx "DataFormats" ∧ isInfix (tx "/interface/") h.toList = true)
+  (∀ h ∈ r.includes, firstSegment h = t!"DataFormats" ∧ isInfix (t!"/interface/") h = true)
 
 instance (r : Row) : Decidable (AtlasRowOk r) := by
   unfold AtlasRowOk; cases r.element <;> exact inferInstance
 
-instance (backend cls : String) (r : Row) : Decidable (CmsRowOk backend cls r) := by
+instance (backend cls : Text) (r : Row) : Decidable (CmsRowOk backend cls r) := by
   unfold CmsRowOk; cases r.element <;> exact inferInstance
 
-def namesOf (rows : List Row) : List String := rows.map (·.name)
+def namesOf (rows : List Row) : List Text := rows.map (·.name)
 
 /-! ## status-checked retrieval (ATLAS): a tiny semantics of the inline block -/
 
@@ -399,15 +403,15 @@ inductive RetrieveStmt where
 deriving DecidableEq, Repr, Inhabited
 
 def parseRetrieve (l : Text) : RetrieveStmt :=
-  match stripPrefix? (tx "ANA_CHECK (evtStore()->retrieve(result, ") l with
+  match stripPrefix? (t!"ANA_CHECK (evtStore()->retrieve(result, ") l with
   | some rest =>
-    match stripSuffix? (tx "));") rest with
+    match stripSuffix? (t!"));") rest with
     | some bank => .checked bank
     | none => .other
   | none =>
-    match stripPrefix? (tx "evtStore()->retrieve(result, ") l with
+    match stripPrefix? (t!"evtStore()->retrieve(result, ") l with
     | some rest =>
-      match stripSuffix? (tx ");") rest with
+      match stripSuffix? (t!");") rest with
       | some bank => .unchecked bank
       | none => .other
     | none => .other
@@ -432,18 +436,18 @@ def runRetrieve (found : Text → Bool) (stmt : RetrieveStmt) (uses : Nat) : Lis
 
 /-! ## reading the implementation's text (executable; used by the driver only) -/
 
-def isForLine (l : Text) : Bool := (tx "for (auto &&").isPrefixOf l
+def isForLine (l : Text) : Bool := (t!"for (auto &&").isPrefixOf l
 
 /-- `for (auto &&V : E)` ↦ `(V, E)` -/
 def parseFor (l : Text) : Option (Text × Text) :=
-  match stripPrefix? (tx "for (auto &&") l with
+  match stripPrefix? (t!"for (auto &&") l with
   | none => none
   | some rest =>
     let v := rest.takeWhile isWordChar
-    match stripPrefix? (tx " : ") (rest.drop v.length) with
+    match stripPrefix? (t!" : ") (rest.drop v.length) with
     | none => none
     | some e =>
-      match stripSuffix? (tx ")") e with
+      match stripSuffix? (t!")") e with
       | some e' => some (v, e')
       | none => none
 
@@ -453,8 +457,8 @@ def opsAfter (v : Text) : List Text → List Text
   | t :: rest =>
     if t = v then
       (match rest with
-       | ['-'] :: ['>'] :: _ => tx "->"
-       | ['.'] :: _ => tx "."
+       | ['-'] :: ['>'] :: _ => t!"->"
+       | ['.'] :: _ => t!"."
        | [] => []
        | t' :: _ => t') :: opsAfter v rest
     else opsAfter v rest
@@ -468,27 +472,27 @@ def findBlocks : List Text → List (List Text)
       let after := rest.drop inner.length
       match after, inner.getLast? with
       | ['}'] :: _, some last =>
-        if (tx " = result;").isSuffixOf last then inner :: findBlocks rest else findBlocks rest
+        if (t!" = result;").isSuffixOf last then inner :: findBlocks rest else findBlocks rest
       | _, _ => findBlocks rest
     else findBlocks rest
 
 def tokenIn (lines : List Text) : Text :=
   match lines.findSome? (fun l =>
-    match stripPrefix? (tx "iEvent.getByToken(") l with
-    | some rest => stripSuffix? (tx ", result);") rest
+    match stripPrefix? (t!"iEvent.getByToken(") l with
+    | some rest => stripSuffix? (t!", result);") rest
     | none => none) with
   | some t => t
   | none => []
 
 def observeBlock (body : List Text) (blk : List Text) : FragObs :=
   let x : Text := match blk.getLast? with
-    | some last => (stripSuffix? (tx " = result;") last).getD []
+    | some last => (stripSuffix? (t!" = result;") last).getD []
     | none => []
   let declSuffix := ' ' :: x ++ [';']
   let loops := body.filterMap parseFor |>.filter (fun p => hasWord x p.2)
   let plain := body.filter (fun l => !isForLine l)
   let elemOps := loops.flatMap (fun p => plain.flatMap (fun l => opsAfter p.1 (tokens l)))
-  let selfLines := plain.filter (fun l => !declSuffix.isSuffixOf l && !(x ++ tx " = ").isPrefixOf l)
+  let selfLines := plain.filter (fun l => !declSuffix.isSuffixOf l && !(x ++ t!" = ").isPrefixOf l)
   { var := x, tok := tokenIn blk,
     decls := body.filter (fun l => declSuffix.isSuffixOf l),
     lines := blk,
@@ -500,8 +504,8 @@ def observeBlock (body : List Text) (blk : List Text) : FragObs :=
 declarations, `book` the booking code (all as trimmed lines) -/
 def observeText (body classDecl book includes libs : List Text) : Obs :=
   { frags := (findBlocks body).map (observeBlock body),
-    classDecls := classDecl.filter (fun l => isInfix (tx "EDGetTokenT<") l),
-    book := book.filter (fun l => isInfix (tx "consumes<") l),
+    classDecls := classDecl.filter (fun l => isInfix (t!"EDGetTokenT<") l),
+    book := book.filter (fun l => isInfix (t!"consumes<") l),
     includes := includes, libs := libs }
 
 end FaxVerif.C06
